@@ -44,6 +44,31 @@ def replay(model, obligation):
     from cassandra.query import SimpleStatement, FETCH_SIZE_UNSET
     from cassandra.policies import RetryPolicy
     fails = []
+    if 'bound-statement-inherits' in obligation:
+        from cassandra.query import PreparedStatement, BoundStatement
+        for p_cl, p_scl, p_fetch, idem, own_cl in itertools.product((None, 0, 3), (None, 8), (FETCH_SIZE_UNSET, 7), (True, False), (None, 0, 6)):
+            p_retry, own_retry = RetryPolicy(), (RetryPolicy() if own_cl == 6 else None)
+            ps = PreparedStatement(column_metadata=[], query_id=b'id', routing_key_indexes=None, query='SELECT 1', keyspace='ks', protocol_version=4,
+                                   result_metadata=None, result_metadata_id=None)
+            ps.consistency_level, ps.serial_consistency_level, ps.fetch_size, ps.retry_policy, ps.is_idempotent = p_cl, p_scl, p_fetch, p_retry, idem
+            bs = BoundStatement(ps, retry_policy=own_retry, consistency_level=own_cl)
+            got = (bs.consistency_level, bs.serial_consistency_level, bs.fetch_size, bs.retry_policy, bs.is_idempotent)
+            want = (own_cl if own_cl is not None else p_cl, p_scl, p_fetch, own_retry if own_retry is not None else p_retry, idem)
+            if got != want:
+                fails.append('prepared(cl=%r serial=%r fetch=%r idempotent=%s) bound with consistency_level=%r: the bound statement has (cl, serial, fetch, retry, idempotent) = %r, expected %r'
+                             % (p_cl, p_scl, p_fetch, idem, own_cl, got, want))
+        return {'reproduced': bool(fails), 'detail': '; '.join(fails[:2]) or 'bound statements inherit and override as specified on the sampled combinations'}
+    if 'legacy-rejects-profile' in obligation:
+        s = cl.Session.__new__(cl.Session)
+        s.cluster = types.SimpleNamespace(_config_mode=cl._ConfigMode.LEGACY)
+        try:
+            s._create_response_future(SimpleStatement('SELECT 1'), None, False, None, cl._NOT_SET, execution_profile='some-profile')
+            fails.append('legacy mode accepted execution_profile=...')
+        except ValueError:
+            pass
+        except Exception as e:
+            fails.append('legacy mode with an execution profile raised %r instead of ValueError' % (e,))
+        return {'reproduced': bool(fails), 'detail': '; '.join(fails) or 'rejected with ValueError'}
     captured = {}
     orig = cl.ResponseFuture
 
